@@ -319,7 +319,9 @@ func c18Encode(c *Ctx, i int, r *gen.Rng) {
 		}
 	case "NoQuoteTextMarshaler", "NoValidateJSONMarshaler":
 		usesText := typeHas(t, func(x reflect.Type) bool {
-			return x.Implements(reflect.TypeOf((*interface{ MarshalText() ([]byte, error) })(nil)).Elem()) || x.Kind() == reflect.Interface
+			tm := reflect.TypeOf((*interface{ MarshalText() ([]byte, error) })(nil)).Elem()
+			// (pointer receivers count: addressable values - slice elements, fields behind a pointer - use them)
+			return x.Implements(tm) || reflect.PtrTo(x).Implements(tm) || x.Kind() == reflect.Interface
 		})
 		usesJSON := typeHas(t, func(x reflect.Type) bool {
 			return x.Implements(reflect.TypeOf((*json.Marshaler)(nil)).Elem()) || reflect.PtrTo(x).Implements(reflect.TypeOf((*json.Marshaler)(nil)).Elem()) || x.Kind() == reflect.Interface
@@ -485,6 +487,11 @@ func c18Targeted(sw string, r *gen.Rng) *c01Case {
 			onlyQuoted = false
 			inner := str()
 			onlyQuoted = was
+			if !json.Valid([]byte(inner)) {
+				// (a twice-quoted literal whose inner text is not a string literal of its own - a raw control
+				// character, invalid UTF-8 - is another subject: left out)
+				inner = `"q"`
+			}
 			if hasLoneSurrogate(inner) {
 				cs.loneInQuoted = true
 			}
